@@ -12,7 +12,7 @@ integration points nPg; tensor extents (dim, nPe, dof_n) are enumerated over the
 
 A caller is executed against its callees' *contracts*: a callee is a stub returning fresh atoms (an
 arbitrary array of the callee's result shape) or the expression its own obligation establishes.
-`FeArray` arithmetic is the contract of C12 (vt.gen.GFe).  Used by C01, C02, C09, C13, C16.
+`FeArray` is re-assembled from its own source on generic arrays (fe_real): T, @, dot, ddot, _align, integrate, broadcast, asfearray run as written.  Used by C01, C02, C07, C09, C12, C13, C16, C17, C18.
 """
 from __future__ import annotations
 
@@ -54,41 +54,57 @@ class _EB:
     pass
 
 
-def fe_stub(sp, NPs):
-    """`FeArray` as the extracted code sees it: asfearray -> GFe, broadcast compiled from the real source"""
+FE_SKIP = ("__new__", "__array_finalize__", "__array_ufunc__", "__array_function__", "_make_reducer")
+FE_ASSEMBLED: dict = {}
 
-    class FeArray(GFe):
-        pass
 
-    def asfearray(array, broadcastFeArrays=False):
-        a = sp.lift(array)
-        if broadcastFeArrays:
-            a = a[None, None]
-        if a.ndim < 2:
-            raise ValueError("cannot view as FeArray: no (Ne, nPg) axes")
-        return GFe(sp, a.shape, a.data)
-
-    FeArray.asfearray = staticmethod(asfearray)
-    FeArray.zeros = staticmethod(lambda *shape, dtype=None: asfearray(NPs.zeros(shape[0] if len(shape) == 1 and isinstance(shape[0], (tuple, list)) else shape)))
-    FeArray.ones = staticmethod(lambda *shape, dtype=None: asfearray(NPs.ones(shape[0] if len(shape) == 1 and isinstance(shape[0], (tuple, list)) else shape)))
-    g = sx.module_globals("EasyFEA.FEM._linalg", np=NPs, FeArray=FeArray)
-    fn = extract.get(LP, "FeArray.broadcast")
-    FeArray.broadcast = staticmethod(extract.compile_fn(fn, g))
-    # isinstance(x, FeArray) in the code under contract means "is a field"
-    FeArray.__instancecheck__ = None
-    return FeArray, GFe
+def fe_real(sp, NPs):
+    """`FeArray` re-assembled from its OWN SOURCE on top of vt.gen.GFeBase: every method of the real class (T, __matmul__, __rmatmul__, dot, ddot, _dot_subscript,
+    _ddot_subscript, _align, integrate, reshape, _get_idx-free _assemble excepted, asfearray, broadcast, zeros, ones, _shape, _ndim, ...) runs as written, on generic arrays.
+    Dropped: the numpy protocol hooks (__new__, __array_finalize__, __array_ufunc__, __array_function__) and the loop generating the reducer wrappers -- what they
+    do for elementwise operators and sums is the part modelled in GFeBase / GA (and checked against the real class by the self-check and by C12)."""
+    import ast
+    import copy
+    import hashlib
+    src, tree = extract.read(LP)
+    cls = extract.find_class(tree, "FeArray")
+    lines = src.splitlines()
+    body = []
+    for n in cls.body:
+        if isinstance(n, ast.FunctionDef) and n.name not in FE_SKIP and n.name != "_assemble" and n.name != "_get_idx":
+            m = copy.deepcopy(n)
+            extract._annotate_float_sources(m, lines)
+            decs = [d for d in m.decorator_list if ast.unparse(d) in ("property", "staticmethod", "classmethod", "lru_cache(maxsize=16)") or ast.unparse(d).endswith(".setter")]
+            m = extract._Strip(True).visit(m)
+            m.decorator_list = decs
+            body.append(m)
+    cdef = ast.ClassDef(name="FeArray", bases=[ast.Name(id="__GFeBase__", ctx=ast.Load())], keywords=[ast.keyword(arg="metaclass", value=ast.Name(id="__FeMeta__", ctx=ast.Load()))],
+                        body=body, decorator_list=[], type_params=[])
+    mod = ast.Module(body=[cdef], type_ignores=[])
+    ast.fix_missing_locations(mod)
+    g = sx.module_globals("EasyFEA.FEM._linalg", np=NPs)
+    g = extract.compile_module_functions(LP, g, names=["_Evaluate", "_Base", "_KeepsFeAxes"])
+    g["np"] = NPs
+    g["__GFeBase__"], g["__FeMeta__"] = gen.GFeBase, _FeMeta
+    exec(compile(mod, f"<re-assembled {LP}::FeArray on generic arrays>", "exec"), g)
+    Fe = g["FeArray"]
+    g["FeArray"] = Fe
+    seg = ast.get_source_segment(src, cls) or ""
+    FE_ASSEMBLED[f"{LP}::FeArray"] = dict(file=LP, cls="FeArray", lines=[cls.lineno, cls.end_lineno], sha256=hashlib.sha256(seg.encode()).hexdigest(),
+                                         methods=[m.name for m in body], dropped=list(FE_SKIP) + ["_assemble", "_get_idx", "reducer wrappers (sum, prod, mean, ...)"])
+    Fe._assemble = gen.GFe._assemble          # contract of _assemble / _get_idx (they index with np.arange(Ne), which has no generic counterpart)
+    return Fe
 
 
 class _FeMeta(type):
     def __instancecheck__(cls, inst):
-        return isinstance(inst, GFe)
+        return isinstance(inst, GA) and bool(getattr(inst, "fe", False))
 
 
 def env(sp, modname, **over):
     NPs = gen.NP(sp)
-    FeArray, _ = fe_stub(sp, NPs)
-    # make isinstance(x, FeArray) true for every GFe
-    FeArray = _FeMeta("FeArray", (GFe,), dict(asfearray=FeArray.asfearray, broadcast=FeArray.broadcast, zeros=FeArray.zeros, ones=FeArray.ones))
+    FeArray = fe_real(sp, NPs)
+    sp.fe_class = FeArray
     g = sx.module_globals(modname, np=NPs, FeArray=FeArray, _Timoshenko=_Timo, _EulerBernoulli=_EB)
     g.update(over)
     return g, NPs, FeArray
@@ -188,7 +204,7 @@ def ob_wJ():
     f = fn_of(GP, "_GroupElem.Get_weightedJacobian_e_pg", g)
     me = sx.Mock("self", dim=2, Get_jacobian_e_pg=lambda mt: sp.fe("J"), Get_weight_pg=lambda mt: sp.arr("w"))
     got = f(me, "rigi")
-    if not isinstance(got, GFe):
+    if not bool(getattr(got, "fe", False)):
         raise Refuted("Get_weightedJacobian_e_pg does not return a field (FeArray)", signature="wJ:type")
     check(got, gen.einsum("ep,p->ep", sp.arr("J"), sp.arr("w")), "weighted jacobian != jacobian[e,p] * weight[p]", "wJ")
     return Verdict(DISCHARGED, backend=BACKEND, sub=2)
@@ -220,7 +236,7 @@ def ob_parts(which, dim, nPe, dof_n=1, canary=False):
         raise AssertionError(which)
     if canary:
         want = want + want
-    if not isinstance(got, GFe):
+    if not bool(getattr(got, "fe", False)):
         raise Refuted(f"Get_{which}_e_pg does not return a field (FeArray)", signature=f"{which}:type")
     check(got, want, f"Get_{which}_e_pg (dim {dim}, nPe {nPe}, dof_n {dof_n})", f"{which}:{dim}:{nPe}:{dof_n}")
     return Verdict(DISCHARGED, backend=BACKEND, sub=int(np.prod(got.data.shape)))
@@ -251,7 +267,7 @@ def ob_B(dim, nPe):
         nPg = NPG
     me = sx.Mock("self", Ne=NE, nPe=nPe, dim=dim, Get_dN_e_pg=lambda mt: sp.fe("dN"), Get_gauss=lambda mt: Gs())
     B = fn_of(GP, "_GroupElem.Get_B_e_pg", g)(me, "rigi")
-    if not isinstance(B, GFe) or tuple(map(repr, B.shape)) != tuple(map(repr, (NE, NPG, ns, nPe * dim))):
+    if not bool(getattr(B, "fe", False)) or tuple(map(repr, B.shape)) != tuple(map(repr, (NE, NPG, ns, nPe * dim))):
         raise Refuted(f"Get_B_e_pg returns {B!r}, expected a field of shape (Ne, nPg, {ns}, {nPe * dim})", signature=f"B:{dim}:shape")
     u = sp.arr("u")
     eps = gen.einsum("epij,j->epi", GA(sp, B.shape, B.data), u)
@@ -307,7 +323,7 @@ def ob_pipeline(dim, nPe):
     Fgot = fn_of(GP, "_GroupElem.Get_F_e_pg", g)(me, "rigi")
     want = gen.einsum("pin,enj->epij", sp.arr("dNr"), sp.arr("x")[:, :, :dim])
     check(Fgot, want, f"Get_F_e_pg (dim {dim}, nPe {nPe}) != sum_n dN_n,i x_n,j", f"F:{dim}:{nPe}")
-    if not isinstance(Fgot, GFe):
+    if not bool(getattr(Fgot, "fe", False)):
         raise Refuted("Get_F_e_pg does not return a field", signature="F:type")
     n += dim * dim
     # invF
@@ -321,7 +337,7 @@ def ob_pipeline(dim, nPe):
     me = sx.Mock("self", dim=dim, Get_invF_e_pg=lambda mt: sp.fe("iF"), Get_dN_pg=lambda mt: sp.arr("dNr"))
     got = fn_of(GP, "_GroupElem.Get_dN_e_pg", g)(me, "rigi")
     check(got, gen.einsum("epij,pjn->epin", sp.arr("iF"), sp.arr("dNr")), f"Get_dN_e_pg (dim {dim}, nPe {nPe}) != invF @ dN_pg", f"dNe:{dim}:{nPe}")
-    if not isinstance(got, GFe):
+    if not bool(getattr(got, "fe", False)):
         raise Refuted("Get_dN_e_pg does not return a field", signature="dNe:type")
     n += dim * nPe
     # jacobian
@@ -452,7 +468,7 @@ def ob_operator(kind, dim, nPe, form="scalar", dof_n=1, canary=False):
         raise AssertionError(kind)
     if canary:
         want = want * 2
-    if isinstance(got, GFe):
+    if bool(getattr(got, "fe", False)):
         raise Refuted(f"{kind} returns a field: the integral over the Gauss points is an (Ne, ...) array", signature=f"{kind}:type")
     check(got, want, f"{kind} (dim {dim}, nPe {nPe}, {form}, dof_n {dof_n}) is not the integral of its documented integrand", f"{kind}:{dim}:{nPe}:{form}:{dof_n}",
           replay=native_operator(kind, dim, nPe, dof_n=dof_n))
@@ -723,7 +739,7 @@ def ob_selfcheck():
                        ("matrix @ vector field", gM @ gV, fM @ fV), ("matrix @ constant", gM @ G(Cc), fM @ Cc), ("constant * field", G(Cc)[0] * gV, Cc[0] * fV),
                        ("integrate", (gw * gM).integrate(), (fw * fM).integrate()), ("scalar + field", 2 + gw, 2 + fw), ("field - matrix", gM - gw, fM - fw)):
         same(g, np.asarray(r), f"FeArray rule: {what}")
-        if isinstance(g, GFe) != isinstance(r, FeArray):
+        if bool(getattr(g, "fe", False)) != isinstance(r, FeArray):
             raise AssertionError(f"vt.gen self-check: FeArray rule {what}: field-ness differs")
         n += 1
     # symbolic extents: a forbidden operation must be refused
@@ -769,7 +785,7 @@ def functions_under_contract(groups):
 
 
 GP_TRUST = ["vt/gen.py: generic-point arrays (one representative per symbolic axis; index-specific operations refused; formal integral over a symbolic axis) -- self-checked against numpy on concrete arrays every run",
-            "contract of FeArray arithmetic (vt.gen.GFe) as decided by C12 against the real class; FeArray.broadcast itself is compiled from the AST",
+            "FeArray is re-assembled from its own source on generic arrays (contracts/ops.py fe_real: T, @, dot, ddot, _align, integrate, reshape, broadcast, asfearray as written); modelled: what numpy's protocol hooks do for it -- elementwise operators call the real _align and then broadcast, sums are typed by the consumed axes -- and _assemble (its np.arange(Ne) indexing has no generic counterpart); this model is cross-checked against the real class on concrete arrays every run and decided by C12",
             "Int[D] f == Int[D] g decided by f == g (sufficient)"]
 
 
@@ -981,7 +997,7 @@ def ob_measures(dim, canary=False):
     got = f(me, lambda X, Y, Z: sp.sym("k"), "rigi")
     check(got, gen.einsum("ep->e", w * sp.sym("k")), "Integrate_e(constant) != constant sum_p wJ[e,p]", "measure:integrate:const")
     n += 3
-    if isinstance(got, GFe):
+    if bool(getattr(got, "fe", False)):
         raise Refuted("Integrate_e returns a field", signature="measure:type")
     # per-element and total measures through the properties of the real class (fget from the AST)
     name = {1: "length", 2: "area", 3: "volume"}[dim]
@@ -1030,7 +1046,7 @@ def ob_pointwise_elastic(dim, nPe, hetero, canary=False):
     me = sx.Mock("self")
     got = f(me, "u", grp, "rigi")
     check(got, gen.einsum("epij,ej->epi", sp.arr("B"), sp.arr("ue")), "Calc_Epsilon_e_pg != B[e,p] u_e", f"pointwise:eps:{dim}")
-    if not isinstance(got, GFe):
+    if not bool(getattr(got, "fe", False)):
         raise Refuted("Calc_Epsilon_e_pg does not return a field", signature="pointwise:eps:type")
     n += ns
     C = sp.arr("Cep") if hetero else sp.arr("C0")
@@ -1520,3 +1536,88 @@ def hyper_lemma_obligations(prop, tier):
     return [Ob(f"{prop}.gp.pk2.consistency.{dim}d.n{nPe}", ob_pk2_consistency_lemma, (dim, nPe), "L", (),
                clause="geometric stiffness == derivative of B^T S at fixed S for the Green-Lagrange strain: with D = dS/dE the tangent of the PK2 operator is the derivative of its residual at every state", timeout=600)
             for dim, nPe in ((2, 3), (3, 4))]
+
+
+
+# ---------------------------------------------------------------------------------------------- FeArray itself at the generic (e, p) (C12)
+
+@_guard
+def ob_fearray_generic(what):
+    """methods of the real FeArray (re-assembled from its source) on fields of symbolic extents: the result at (e, p) is the numpy operation on the tensors at (e, p)"""
+    d = 3
+    sp = gen.Space(dict(s=(NE, NPG), t=(NE, NPG), v=(NE, NPG, d), w=(NE, NPG, d), A=(NE, NPG, d, d), Bm=(NE, NPG, d, d), T3=(NE, NPG, 2, d, d), T4=(NE, NPG, d, d, d, d),
+                        c0=(), c1=(d,), c2=(d, d), se=(NE, 1), sp_=(1, NPG)), scalars=("k",))
+    g, NPs, Fe = env(sp, "EasyFEA.FEM._linalg")
+    f = {k: sp.fe(k) for k in ("s", "t", "v", "w", "A", "Bm", "T3", "T4", "se", "sp_")}
+    a = {k: sp.arr(k) for k in sp.decls}
+    k_ = sp.sym("k")
+    n = 0
+
+    def same(got, want, label, field=True):
+        nonlocal n
+        n += 1
+        if bool(getattr(got, "fe", False)) != field:
+            raise Refuted(f"{label}: the result is {'not ' if field else ''}a field", signature=f"fearray:{what}:type")
+        check(got, want, label, f"fearray:{what}")
+    E = gen.einsum
+    if what == "elementwise":
+        for nm, op in (("+", lambda x, y: x + y), ("-", lambda x, y: x - y), ("*", lambda x, y: x * y), ("/", lambda x, y: x / y)):
+            same(op(f["s"], f["A"]), op(E("ep,ij->epij", a["s"], sp.full((d, d), 1)), a["A"]), f"scalar field {nm} matrix field")
+            same(op(f["A"], f["s"]), op(a["A"], E("ep,ij->epij", a["s"], sp.full((d, d), 1))), f"matrix field {nm} scalar field")
+            same(op(f["v"], f["A"]), op(E("epj,i->epij", a["v"], sp.full((d,), 1)), a["A"]), f"vector field {nm} matrix field (tensor axes right-aligned)")
+            same(op(f["A"], a["c2"]), op(a["A"], E("ij,ep->epij", a["c2"], sp.full((NE, NPG), 1))), f"matrix field {nm} constant matrix")
+            same(op(a["c1"], f["v"]), op(E("i,ep->epi", a["c1"], sp.full((NE, NPG), 1)), a["v"]), f"constant vector {nm} vector field")
+            same(op(f["s"], k_), op(a["s"], sp.full((NE, NPG), k_)), f"scalar field {nm} number")
+            same(op(2, f["v"]), op(sp.full((NE, NPG, d), 2), a["v"]), f"number {nm} vector field")
+            same(op(f["se"], f["sp_"]), op(E("eo,ep->ep", a["se"], sp.full((NE, NPG), 1)), E("op,ep->ep", a["sp_"], sp.full((NE, NPG), 1))), f"(Ne, 1) field {nm} (1, nPg) field")
+        same(-f["A"], a["A"] * -1, "negation")
+    elif what == "transpose":
+        same(f["s"].T, a["s"], "T of a scalar field")
+        same(f["v"].T, a["v"], "T of a vector field")
+        same(f["A"].T, E("epij->epji", a["A"]), "T of a matrix field")
+        same(f["T3"].T, E("epijk->epkji", a["T3"]), "T of a rank-3 field (tensor axes reversed)")
+        same(f["T4"].T, E("epijkl->eplkji", a["T4"]), "T of a rank-4 field")
+    elif what == "matmul":
+        same(f["A"] @ f["Bm"], E("epij,epjk->epik", a["A"], a["Bm"]), "matrix field @ matrix field")
+        same(f["A"] @ f["v"], E("epij,epj->epi", a["A"], a["v"]), "matrix field @ vector field")
+        same(f["v"] @ f["A"], E("epi,epij->epj", a["v"], a["A"]), "vector field @ matrix field")
+        same(f["v"] @ f["w"], E("epi,epi->ep", a["v"], a["w"]), "vector field @ vector field")
+        same(f["A"] @ a["c2"], E("epij,jk->epik", a["A"], a["c2"]), "matrix field @ constant matrix")
+        same(f["A"] @ a["c1"], E("epij,j->epi", a["A"], a["c1"]), "matrix field @ constant vector")
+        same(f["v"] @ a["c2"], E("epi,ij->epj", a["v"], a["c2"]), "vector field @ constant matrix")
+        same(a["c2"] @ f["A"], E("ij,epjk->epik", a["c2"], a["A"]), "constant matrix @ matrix field")
+        same(a["c2"] @ f["v"], E("ij,epj->epi", a["c2"], a["v"]), "constant matrix @ vector field")
+        same(a["c1"] @ f["A"], E("i,epij->epj", a["c1"], a["A"]), "constant vector @ matrix field")
+        same(a["c1"] @ f["v"], E("i,epi->ep", a["c1"], a["v"]), "constant vector @ vector field")
+        same(f["se"][:, :, None, None] * f["A"] @ f["v"], E("eo,epij,epj->epi", a["se"], a["A"], a["v"]), "((Ne, 1) field * matrix field) @ vector field")
+    elif what == "dot":
+        same(f["v"].dot(f["w"]), E("epi,epi->ep", a["v"], a["w"]), "vector . vector")
+        same(f["A"].dot(f["v"]), E("epij,epj->epi", a["A"], a["v"]), "matrix . vector")
+        same(f["v"].dot(f["A"]), E("epi,epij->epj", a["v"], a["A"]), "vector . matrix")
+        same(f["A"].dot(f["Bm"]), E("epij,epjk->epik", a["A"], a["Bm"]), "matrix . matrix")
+        same(f["T4"].dot(f["v"]), E("epijkl,epl->epijk", a["T4"], a["v"]), "rank 4 . vector")
+        same(f["A"].dot(a["c2"]), E("epij,jk->epik", a["A"], a["c2"]), "matrix . constant matrix")
+        same(f["A"].ddot(f["Bm"]), E("epij,epij->ep", a["A"], a["Bm"]), "matrix : matrix")
+        same(f["T4"].ddot(f["A"]), E("epijkl,epkl->epij", a["T4"], a["A"]), "rank 4 : matrix")
+        same(f["A"].ddot(f["T4"]), E("epij,epijkl->epkl", a["A"], a["T4"]), "matrix : rank 4")
+        same(f["A"].ddot(a["c2"]), E("epij,ij->ep", a["A"], a["c2"]), "matrix : constant matrix")
+    elif what == "reduce":
+        same((f["s"] * f["A"]).integrate(), E("ep,epij->eij", a["s"], a["A"]), "integrate", field=False)
+        same(f["A"].sum(axis=-1), E("epij->epi", a["A"]), "sum over a tensor axis")
+        same(f["A"].sum(axis=(2, 3)), E("epij->ep", a["A"]), "sum over both tensor axes")
+        same(f["A"].sum(axis=1), E("epij->eij", a["A"]), "sum over the Gauss points", field=False)
+        same(f["A"].sum(axis=0), E("epij->pij", a["A"]), "sum over the elements", field=False)
+        same(sp.lift(f["s"].sum()), E("ep->", a["s"]), "sum of everything", field=False)
+        same(f["A"].reshape(NE, NPG, d * d), a["A"].reshape(NE, NPG, d * d), "reshape of the tensor axes")
+        same(Fe.asfearray(a["c2"], True), a["c2"][None, None], "asfearray(constant, broadcastFeArrays=True)")
+    else:
+        raise AssertionError(what)
+    return Verdict(DISCHARGED, backend=BACKEND + "; FeArray methods from their own source", sub=n)
+
+
+def fearray_obligations(prop, tier):
+    obs = [Ob(f"{prop}.gp.fearray.{w}", ob_fearray_generic, (w,), "P", tuple(f_(LP, f"FeArray.{q}") for q in {"elementwise": ("_align",), "transpose": ("T",), "matmul": ("__matmul__", "__rmatmul__"),
+                                                                                                                 "dot": ("dot", "ddot", "_dot_subscript", "_ddot_subscript"), "reduce": ("integrate", "reshape", "asfearray")}[w]),
+              clause="the result at every (e, p) is the numpy operation on the tensors at (e, p), for all Ne, nPg (fields of ranks 0 ... 4, constants and numbers on either side, size-1 leading axes)", timeout=600)
+           for w in ("elementwise", "transpose", "matmul", "dot", "reduce")]
+    return obs
